@@ -321,10 +321,19 @@ def initFromView (a : Md) (other : View) (tuples : List (List Nat)) : Md :=
 
 def initFromMdspan (a : Md) (other : Md) (tuples : List (List Nat)) : Md := initFromView a other.toView tuples
 
-/-- `mdarray(const mdspan<…,Accessor>& other)`: `container_(construct_container(other.size()))`,
-    `mapping_(other.mapping())`, then copy — for a view with ANY accessor policy -/
+/-- `mdarray(const mdspan<…,Accessor>& other)`: `container_(construct_container(N))`, `mapping_(other.mapping())`,
+    then copy — for a view with ANY accessor policy and an array of ANY layout (`m` = the converted mapping).  The element
+    count `N` is what the member initialiser in mdarray.hh says (regenerated: `Gen.mdarray_from_mdspan_csize`), a function of
+    the required span of the adopted mapping, the required span of the view's mapping and `other.size()` -/
 def Md.fromView (m : Mapping) (other : View) : Md :=
-  initFromView ⟨m, List.replicate (mdSize other.map.rank other.map.ext) 0⟩ other (allTuples (toList m.rank m.ext))
+  initFromView ⟨m, List.replicate (mdarray_from_mdspan_csize m.requiredSpan other.map.requiredSpan
+    (mdSize other.map.rank other.map.ext)) 0⟩ other (allTuples (toList m.rank m.ext))
+
+/-- `mdarray(const mdspan<…,Accessor>& other, const Alloc& a)`: `container_(N, a)` with the element count of that
+    constructor's member initialiser (regenerated: `Gen.mdarray_from_mdspan_alloc_csize`) -/
+def Md.fromViewAlloc (m : Mapping) (other : View) : Md :=
+  initFromView ⟨m, List.replicate (mdarray_from_mdspan_alloc_csize m.requiredSpan other.map.requiredSpan
+    (mdSize other.map.rank other.map.ext)) 0⟩ other (allTuples (toList m.rank m.ext))
 
 /-- the same for a view with `default_accessor` over flat storage -/
 def Md.fromMdspan (m : Mapping) (other : Md) : Md := Md.fromView m other.toView
